@@ -126,7 +126,17 @@ def install_ds(R):
     R.externals["xarray.Dataset"] = ext_dataset
 
     R.pure_ext |= {"numpy.asarray"}
-    R.add(CR + "get_ndim_first", result="V", pure=True, assumed=True, notes="first leaf of the nested results (recursive)")
+    # spec function FirstLeaf(x, n): x for n == 0, else FirstLeaf(x[0], n - 1); the real body is checked against it (partial correctness:
+    # the recursive call is used through this same contract; n < 0 does not terminate normally)
+    _fl = z3.Function("ext:xyzpy/gen/combo_runner.py:get_ndim_first/2", V, V, V)
+    _x, _n = z3.Const("x!fl", V), z3.Int("n!fl")
+    R.axioms.append(("FirstLeaf_zero", z3.ForAll([_x], _fl(_x, T.VInt(0)) == _x, patterns=[_fl(_x, T.VInt(0))])))
+    R.axioms.append(("FirstLeaf_step", z3.ForAll([_x, _n], z3.Implies(_n != 0, _fl(_x, T.VInt(_n)) == _fl(T.getitem(_x, T.VInt(0)), T.VInt(_n - 1))),
+                                                 patterns=[_fl(_x, T.VInt(_n))])))
+    R.add(CR + "get_ndim_first", result="V", pure=True, props=["C03"], types={"ndim": "int"},
+          ensures=[("first_leaf", "result == NdimFirst(x, ndim)")],
+          raises={"AnyError": dict()},
+          notes="first leaf of the nested results (recursive), checked against the spec function FirstLeaf")
     R.add(CR + "multi_concat", result="V", pure=True, assumed=True, notes="xarray.concat of labelled results (var_names=None): assumed")
     R.inline.add(PR + "parse_combo_results")
 
